@@ -369,22 +369,38 @@ func (cs *checkState) confirmAndWrite(v violation, deadline time.Time) (path str
 	if err := writeReplay(path, &rf); err != nil {
 		return "", false, err.Error()
 	}
-	// the replay must reproduce the same class, twice; if the recorded schedule cannot be followed, fall back
-	// to replaying by seed (the run is a pure function of its seed), which must then reproduce twice as well
-	for i := 0; i < 2; i++ {
-		got, note := replayClassWant(bin, path, v.Flavour, v.Class)
-		if got != v.Class {
-			if !rf.BySeed {
-				rf.BySeed, rf.Choices = true, nil
-				if err := writeReplay(path, &rf); err != nil {
-					return "", false, err.Error()
-				}
-				i = -1
-				continue
+	// The replay must reproduce the same class twice. A run is a pure function of its replay file unless the code
+	// under test contains a select with several ready cases (the unchanged tree has none; Go resolves it with an
+	// unseedable coin): then up to eight attempts are made and two of them must reproduce. If the recorded schedule
+	// cannot be followed at all, fall back to replaying by seed.
+	confirm := func() (hits, attempts int, last, note string) {
+		for attempts < 8 && hits < 2 {
+			attempts++
+			last, note = replayClassWant(bin, path, v.Flavour, v.Class)
+			if last == v.Class {
+				hits++
+			} else if attempts >= 3 && hits == 0 {
+				break
 			}
-			os.Remove(path)
-			return "", false, fmt.Sprintf("replay %d gave %q (%s)", i+1, got, firstLines(note, 5))
 		}
+		return
+	}
+	hits, attempts, last, note := confirm()
+	if hits < 2 && !rf.BySeed {
+		rf.BySeed, rf.Choices = true, nil
+		if err := writeReplay(path, &rf); err != nil {
+			return "", false, err.Error()
+		}
+		hits, attempts, last, note = confirm()
+	}
+	if hits < 2 {
+		os.Remove(path)
+		return "", false, fmt.Sprintf("%d of %d replays reproduced it; the last gave %q (%s)", hits, attempts, last, firstLines(note, 5))
+	}
+	if attempts > 2 {
+		rf.ReplayNote = fmt.Sprintf("reproduced in %d of %d replay attempts: the code under test makes a choice the simulator cannot seed (a select with several ready cases); repeat the replay if it comes back clean", hits, attempts)
+		writeReplay(path, &rf)
+		return path, true, ""
 	}
 	if rf.BySeed {
 		return path, true, ""
@@ -459,6 +475,9 @@ func replayCmd(path string) int {
 		return 2
 	}
 	class, note := replayClassWant(bin, path, rf.Flavour, rf.Class)
+	for i := 0; i < 7 && class != rf.Class && rf.ReplayNote != ""; i++ {
+		class, note = replayClassWant(bin, path, rf.Flavour, rf.Class)
+	}
 	fmt.Printf("verif: replay of %s: recorded class %q, this run %q\n", path, rf.Class, class)
 	switch {
 	case class == rf.Class:
